@@ -58,7 +58,7 @@ type opKind string
 // after an increment of its own: the transaction must read its own write)
 // QAERR executes the text of QA with one argument too many: a failure private to the caller (the statement
 // itself is fine), which must neither cost the other users of that text their statement nor a new preparation.
-var opKinds = []opKind{"QA", "QB", "FIND", "EXEC", "TXQA", "TXEXEC", "QA", "QB", "ROW", "TXROW", "QAERR"}
+var opKinds = []opKind{"QA", "QB", "FIND", "EXEC", "TXQA", "TXEXEC", "QA", "QB", "ROW", "TXROW", "QAERR", "TXNEST"}
 
 type opResult struct {
 	op          opKind
@@ -80,6 +80,7 @@ type world struct {
 	rec  *recdrv.Recorder
 	psdb *gorm.PreparedStmtDB
 	path string
+	sdb  *sql.DB
 }
 
 func openWorld(c *core.Ctx, s *sched, sessionLevel bool, maxOpen int, both bool) *world {
@@ -100,7 +101,7 @@ func openWorld(c *core.Ctx, s *sched, sessionLevel bool, maxOpen int, both bool)
 	if err != nil {
 		panic(err)
 	}
-	w := &world{s: s, db: db, rec: rec, path: path, both: both}
+	w := &world{s: s, db: db, rec: rec, path: path, both: both, sdb: sdb}
 	if sessionLevel {
 		tx := db.Session(&gorm.Session{PrepareStmt: true})
 		w.psdb, _ = tx.Statement.ConnPool.(*gorm.PreparedStmtDB)
@@ -206,6 +207,22 @@ func (w *world) runOp(worker int, op opKind) opResult {
 			r.rows = res.RowsAffected
 			return w.scanRow(worker, tx.Raw(textN, own).Row(), &r.n)
 		})
+	case "TXNEST":
+		// an increment, then a nested block that increments again and fails: its save point takes that one back
+		r.err = db.Transaction(func(tx *gorm.DB) error {
+			res := tx.Exec(textU, own)
+			if res.Error != nil {
+				return res.Error
+			}
+			r.rows = res.RowsAffected
+			tx.Transaction(func(tx2 *gorm.DB) error {
+				if e := tx2.Exec(textU, own).Error; e != nil {
+					return e
+				}
+				return errNestedFails
+			})
+			return nil
+		})
 	case "TXEXEC":
 		r.err = db.Transaction(func(tx *gorm.DB) error {
 			res := tx.Exec(textU, own)
@@ -234,7 +251,7 @@ func expected(op opKind) (string, int64) {
 		return "a", 0
 	case "QB", "FIND":
 		return "b", 0
-	case "EXEC", "TXROW":
+	case "EXEC", "TXROW", "TXNEST":
 		return "", 1
 	case "TXEXEC":
 		return "b", 1
@@ -242,7 +259,11 @@ func expected(op opKind) (string, int64) {
 	return "", 0
 }
 
-func increments(op opKind) bool { return op == "EXEC" || op == "TXEXEC" || op == "TXROW" }
+func increments(op opKind) bool {
+	return op == "EXEC" || op == "TXEXEC" || op == "TXROW" || op == "TXNEST"
+}
+
+var errNestedFails = errors.New("verif: the nested block fails")
 
 var cleanAfterClose = regexp.MustCompile(`invalid db|statement is closed|database is closed`)
 
@@ -431,6 +452,26 @@ func execute(c *core.Ctx, sc scenario, r *core.Rand, forced []int) outcome {
 	defer s.mu.Unlock()
 	out.trace = s.trace
 	out.choices = s.choices
+	// the counters as stored at the end: a worker's row holds exactly its successful increments (when none of its
+	// incrementing operations failed, i.e. when that number is certain)
+	// (an incrementing operation that returned an error may or may not have applied its ONE increment; the second
+	// increment of TXNEST sits in a nested block that always fails and is never durable)
+	for i, rs := range out.results {
+		incs, unsure := int64(0), int64(0)
+		for _, r := range rs {
+			if increments(r.op) {
+				if r.err == nil {
+					incs++
+				} else {
+					unsure++
+				}
+			}
+		}
+		var n int64
+		if err := w.sdb.QueryRow("SELECT n FROM ps WHERE id = ?", 100+i+1).Scan(&n); err == nil && (n < incs || n > incs+unsure) {
+			out.problems = append(out.problems, fmt.Sprintf("w%d: its counter row holds %d at the end; %d of its incrementing operations succeeded and %d failed, which allows %d..%d (non-prepared mode)", i+1, n, incs, unsure, incs, incs+unsure))
+		}
+	}
 	// results
 	for i, rs := range out.results {
 		incs, certain := int64(0), true // the worker's own successful increments so far
